@@ -36,6 +36,7 @@ def run(ctx):
         ctx.cov["transitions"] += r.generated
         ctx.cov["tlc_runs"].append({"name": "gen_" + name, "generated": r.generated, "distinct": r.distinct, "cases": len(h), "wall_s": round(r.wall, 1)})
         n = len(h)
+        h.sort(key=canon)       # TLC's workers print in no fixed order; the sample below must depend on the seed only
         for x in (take(h, limit, ctx.seed) if limit else h):
             cases.append({"case": len(cases) + 1, "steps": x})
         return n
